@@ -404,6 +404,26 @@ def main(argv):
         broken.append({"kind": "tie", "name": "hapi (public-API search harness) does not build", "detail": tools["hapi"]})
 
     known = load_known()
+    # known findings carry a probe (one specific failing input). It is re-run on every check: if it still
+    # fails the finding is printed as KNOWN-FINDING; the standing generators avoid that construct, so any
+    # violation they report is a different one.
+    probes_run = 0
+    if not args.skip_search and not tools.get("hapi"):
+        for k in known:
+            if k.get("property") == prop and k.get("status") == "known" and k.get("probe"):
+                pf = os.path.join(workdir, "probe-%d.json" % probes_run)
+                probes_run += 1
+                json.dump({"search": k["probe"]["search"], "case": k["probe"]["case"]}, open(pf, "w"))
+                env = dict(os.environ, VERIF_NODE_DIR=os.path.join(VERIF, "node"), VERIF_BIN=BIN, VERIF_DRIVER=DRIVER, VERIF_REPO=REPO)
+                wd = os.path.join(workdir, "probe-wd-%d" % probes_run)
+                os.makedirs(wd, exist_ok=True)
+                try:
+                    rc2, out2, err2 = sh([os.path.join(BIN, "hapi"), "replay", pf, wd], env=env, timeout=600)
+                    res2 = json.loads(out2)
+                    if res2.get("violations"):
+                        known_lines.append("KNOWN-FINDING: property=%s %s" % (prop, k.get("what", "")))
+                except Exception as e:
+                    broken.append({"kind": "tie", "name": "known-finding probe failed to run", "detail": str(e)})
     for r in searches:
         for v in r.get("violations", []):
             k = match_known(known, prop, v.get("class"))
